@@ -235,6 +235,36 @@ impl Cut {
         }
     }
 
+    /// Iterates with a clock advance after the first item: (items before, items after).
+    pub fn iter_advance(&mut self, ns: u64) -> (Vec<(u32, u64)>, Vec<(u32, u64)>) {
+        let clock = self.clock.clone();
+        let mut before = Vec::new();
+        let mut after = Vec::new();
+        match &mut self.inner {
+            Inner::U(c) => {
+                let mut it = c.iter();
+                if let Some((k, v)) = it.next() {
+                    before.push((k.id, v.vid));
+                }
+                clock.advance(Duration::from_nanos(ns));
+                for (k, v) in it {
+                    after.push((k.id, v.vid));
+                }
+            }
+            Inner::S(c) => {
+                let mut it = c.iter();
+                if let Some(e) = it.next() {
+                    before.push((e.key().id, e.value().vid));
+                }
+                clock.advance(Duration::from_nanos(ns));
+                for e in it {
+                    after.push((e.key().id, e.value().vid));
+                }
+            }
+        }
+        (before, after)
+    }
+
     pub fn invalidate(&mut self, k: u32) {
         let p = TK::probe(k);
         match &mut self.inner {
